@@ -44,6 +44,11 @@ def case(draw):
         spec['eqs'].append(['kk', draw(st.sampled_from(['2.0*k + 1.0', '0.5*k', 'k*k - 1.0'])), 'leaf'])
         spec['cert']['lam']['kk'] = 0.0
     spec['layout']['perm'] = None
+    # the generator object may be reused: an earlier block (with a loose stated tolerance) parsed and written first
+    if draw(st.sampled_from([True, False, False])):
+        pre = draw(blocks.system(n_sim=(1, 3), q_hi=50, lags=(0, 1), exos=(0, 1), consts=(0, 1), horizon=(1, 3),
+                                 tols=('0.05', '1e-2', '.5')))
+        spec['pre_block'] = pre
     if draw(st.sampled_from([True, False])):
         # give every non-constant variable an initial condition, so that the generated module and the in-process
         # solver start from the same k=0 state and their series can be compared
@@ -66,7 +71,13 @@ def run(spec):
     try:
         path = os.path.join(tmp, modname + '.py')
         try:
-            g = IterativeMachineGenerator(text, run_equation_reduction=spec['gen_reduction'])
+            if spec.get('pre_block') is not None:
+                labels.append('generator-object-reused')
+                g = IterativeMachineGenerator(blocks.render(spec['pre_block']), run_equation_reduction=spec['gen_reduction'])
+                g.main(os.path.join(tmp, modname + '_pre.py'))
+                g.ParseString(text)
+            else:
+                g = IterativeMachineGenerator(text, run_equation_reduction=spec['gen_reduction'])
             g.main(path)
         except Exception as ex:
             raise Violation('C20/generator-raises', 'IterativeMachineGenerator raised %s: %s' % (type(ex).__name__, ex))
